@@ -189,6 +189,63 @@ pub fn main(args: &[String]) {
                 }
             }
         }
+        "longline" => {
+            // response lines far beyond 8 KiB (no literal): sampled proper prefixes must be incomplete, the whole line accepted
+            for k in 0..n {
+                let target = 8300 + rng.below(6000);
+                let mut line: Vec<u8> = match k % 5 {
+                    0 => {
+                        let mut s = b"* SEARCH".to_vec();
+                        while s.len() < target {
+                            s.extend_from_slice(format!(" {}", 1 + rng.below(4000000000)).as_bytes());
+                        }
+                        s
+                    }
+                    1 => {
+                        let mut s = b"* SORT".to_vec();
+                        while s.len() < target {
+                            s.extend_from_slice(format!(" {}", 1 + rng.below(99999)).as_bytes());
+                        }
+                        s
+                    }
+                    2 => {
+                        let mut s = b"* CAPABILITY IMAP4rev1".to_vec();
+                        while s.len() < target {
+                            s.extend_from_slice(format!(" X-EXT{}", rng.below(100000)).as_bytes());
+                        }
+                        s
+                    }
+                    3 => {
+                        let mut s = b"* 17 FETCH (FLAGS (\\Seen".to_vec();
+                        while s.len() < target {
+                            s.extend_from_slice(format!(" kw{}", rng.below(100000)).as_bytes());
+                        }
+                        s.extend_from_slice(b"))");
+                        s
+                    }
+                    _ => {
+                        let mut s = b"* OK [ALERT] ".to_vec();
+                        while s.len() < target {
+                            s.extend_from_slice(b"the quick brown fox ");
+                        }
+                        s
+                    }
+                };
+                line.extend_from_slice(b"\r\n");
+                let mut cuts: Vec<usize> = vec![1, 2, 100, 8191, 8192, 8193, 8194, 8200, line.len() - 2, line.len() - 1];
+                let mut c = 300 + rng.below(200);
+                while c < line.len() {
+                    cuts.push(c);
+                    c += 400 + rng.below(500);
+                }
+                for c in cuts {
+                    if c < line.len() {
+                        emit(&line[..c], Some("P"));
+                    }
+                }
+                emit(&line, Some("W"));
+            }
+        }
         "follow" => {
             for _ in 0..n {
                 let (_, a) = gen_pair(&mut rng, true);
@@ -324,8 +381,15 @@ pub fn main(args: &[String]) {
                         // and the response that follows is untouched
                         let rest = run_parser(&bf[b.len()..]);
                         if rest == rf { "OK".to_string() } else { "BAD the response after the literal parses differently".to_string() }
-                    } else if !utf8 && !binary_ok {
-                        "OK".to_string() // a text field cannot hold bytes that are not UTF-8: outside the quantifier
+                    } else if !utf8 && !binary_ok && rb == "ERR" {
+                        "OK".to_string() // a text field cannot hold bytes that are not UTF-8: refusing the response is right
+                    } else if !utf8 && !binary_ok && {
+                        // known class: inside a bracketed response code, the failed code makes resp_text fall back to
+                        // plain text, which ends the response at the CRLF of the literal header
+                        let k: usize = rb.split(' ').nth(1).and_then(|t| t.parse().ok()).unwrap_or(0);
+                        rb.starts_with("OK ") && k >= 3 && k < b.len() && &bf[k - 3..k] == b"}\r\n" && rb.contains("code=None") && bf[..k].contains(&b'[')
+                    } {
+                        "KNOWN resp-code-literal-fallback".to_string()
                     } else {
                         format!("BAD expected {}", &expect[..expect.len().min(300)])
                     };
